@@ -21,11 +21,14 @@ class Tr:
 
     def setup(self, mode):
         o = {"name": "m", "help": "h"}
+        ctor = self.flavour
         if self.kind == "hist":
-            o["buckets"] = [1e12]
+            # "histogram_tiny": every observed amount lies above the only finite bound (only the implicit +Inf bucket counts it)
+            o["buckets"] = [0.5] if self.flavour == "histogram_tiny" else [1e12]
+            ctor = "histogram"
         if mode == "single":
-            return [{"op": self.flavour, "as": "m", "opts": o}, {"op": "local", "of": "m", "as": "h1"}]
-        return [{"op": self.flavour + "_vec", "as": "V", "opts": o, "labels": ["l"]}, {"op": "local", "of": "V", "as": "w1"}]
+            return [{"op": ctor, "as": "m", "opts": o}, {"op": "local", "of": "m", "as": "h1"}]
+        return [{"op": ctor + "_vec", "as": "V", "opts": o, "labels": ["l"]}, {"op": "local", "of": "V", "as": "w1"}]
 
     def event(self, e):
         op, h, g, k, v = e["op"], e["h"], e["g"], e["k"], e["v"]
@@ -131,7 +134,7 @@ def run(ctx):
     quick = ctx.quick
     nconf, total = 0, 0
     samples = []
-    for kind, flavours in (("counter", ["counter", "int_counter"]), ("hist", ["histogram"])):
+    for kind, flavours in (("counter", ["counter", "int_counter"]), ("hist", ["histogram", "histogram_tiny"])):
         for mode, L in (("single", 4 if quick else 5), ("vec", 4 if quick else 5)):
             cfg = "CONSTANTS\n%s  MaxLen = %d\n  Mode = %s\nSPECIFICATION HSpec\nINVARIANTS Emit Ledger\nPROPERTY SecondFlushIsNoop\nCHECK_DEADLOCK FALSE\n" % (consts(kind), L, tla_str(mode))
             r = tlc(ctx, "LocalGen", cfg, workers=8, label="gen%s%s" % (kind, mode), timeout=3000, heap="8g")
@@ -188,7 +191,7 @@ def trace_direction(ctx, exe):
     ntr = 12 if ctx.quick else 120
     tlen = 80 if ctx.quick else 150
     okc, n = 0, 0
-    for kind, fl in (("counter", "counter"), ("counter", "int_counter"), ("hist", "histogram")):
+    for kind, fl in (("counter", "counter"), ("counter", "int_counter"), ("hist", "histogram"), ("hist", "histogram_tiny")):
         tr = Tr(kind, fl)
         for mode in ("single", "vec"):
             plans, jobs, marks = [], [], []
